@@ -119,6 +119,16 @@ type mBlock struct {
 	ways      []mWay
 	rels      []mRel
 	mixed     bool // ways and relations share one primitive group (the decoder accepts it)
+	second    *mBlock // a second dense group of the same block (shares string table and parameters)
+}
+
+// secondDense adds a second dense primitive group to the block.
+func (m *mBlock) secondDense() *mBlock {
+	s := &mBlock{st: m.st, width: m.width, exact: m.exact,
+		hasGran: m.hasGran, hasDG: m.hasDG, hasLatOff: m.hasLatOff, hasLonOff: m.hasLonOff,
+		gran: m.gran, dg: m.dg, latOff: m.latOff, lonOff: m.lonOff}
+	m.second = s
+	return s
 }
 
 func (m *mBlock) granularity() int64 {
@@ -381,6 +391,11 @@ func (m *mBlock) encode() []byte {
 		g.bytesField(2, m.encodeDense())
 		w.bytesField(2, g.b)
 	}
+	if m.second != nil && m.second.hasDense {
+		var g pbw
+		g.bytesField(2, m.second.encodeDense())
+		w.bytesField(2, g.b)
+	}
 	if m.mixed {
 		var g pbw
 		for i := range m.ways {
@@ -560,6 +575,11 @@ func (m *mBlock) expected() []osm.Object {
 	var out []osm.Object
 	for _, n := range m.expectedNodes() {
 		out = append(out, n)
+	}
+	if m.second != nil {
+		for _, n := range m.second.expectedNodes() {
+			out = append(out, n)
+		}
 	}
 	for _, w := range m.expectedWays() {
 		out = append(out, w)
